@@ -29,6 +29,10 @@ func Run(c *corr.Ctx) {
 		}
 		return
 	}
+	if os.Getenv("CODECMISC_ONLY") == "longruns" { // development aid: time the long runs alone
+		longRuns(c)
+		return
+	}
 	corpusFiles(c, specs)
 	klvCorpus(c)
 	m1vCorpus(c)
